@@ -8,7 +8,7 @@ CHECKS="$@"; [ "$CHECKS" = "all" ] && CHECKS="C01 C02 C03 C04 C05 C06 C07 C08 C0
 export GOFLAGS=-mod=mod GOPROXY=off GOSUMDB=off GOTOOLCHAIN=local
 D=$(mktemp -d /tmp/mrepo.XXXXXX)
 trap 'rm -rf "$D"; rm -f /verif/.build/bin/*-????????.test /verif/.build/alt-*' EXIT
-rsync -a --exclude .git /repo/ "$D"/
+if [ -n "$SEED_BASE" ]; then git -C /repo archive "$SEED_BASE" | tar -x -C "$D"; else rsync -a --exclude .git /repo/ "$D"/; fi
 demo_pkg() { # package dir of the demo, from its package clause / meta
   local f="$DIR/demo_test.go"; local pk=$(grep -m1 '^package ' "$f" | awk '{print $2}')
   case "$pk" in file|file_test) echo persist/file;; s3|s3_test) echo persist/s3;; *) echo .;; esac
